@@ -26,7 +26,8 @@ vars == <<c, k, verdict>>
 
 ----------------------------------------------------------------------------
 \* input states (A2)
-NF1 == NBound
+NB == atoi(IOEnv.TV_NB)      \* number of boundary values used by this run (<= NBound)
+NF1 == NB
 
 RegIdx(cs, key) == CHOOSE i \in 1..Len(cs.regs) : RegKey(cs.regs[i]) = key
 Keys(cs) == {RegKey(cs.regs[i]) : i \in 1..Len(cs.regs)}
@@ -34,12 +35,12 @@ SyncNew(r) == (r.kind = "isa" /\ r.acc \in {"x", "y", "z"}) \/ r.kind # "isa"
 
 ValStd(w, kk, salt) ==
     IF kk <= NF1 THEN Bound(w, kk)
-    ELSE IF kk <= 2 * NF1 THEN Bound(w, 1 + (H3(Seed, kk, salt) % NBound))
+    ELSE IF kk <= 2 * NF1 THEN Bound(w, 1 + (H3(Seed, kk, salt) % NB))
     ELSE RandBV(w, H2(Seed, kk), salt)
 
 \* exhaustive / pairwise families over the (up to two) "grid" operands cs.gk of a generated program
-GridN == 256 * NBound
-PairN == NBound * NBound
+GridN == 256 * NB
+PairN == NB * NB
 WithLowByte(v, b) == Mk(v.w, [i \in 1..NL(v.w) |-> IF i = 1 THEN b ELSE v.l[i]])
 GPos(cs, key) == IF \E i \in 1..Len(cs.gk) : cs.gk[i] = key THEN CHOOSE i \in 1..Len(cs.gk) : cs.gk[i] = key ELSE 0
 
@@ -54,16 +55,23 @@ ValIn(cs, kk, key, w, salt) ==
             (IF g = 2 THEN WithLowByte(rnd, (kk - GridN - 1) % 256)
              ELSE IF g = 1 THEN Bound(w, ((kk - GridN - 1) \div 256) + 1) ELSE ValStd(w, kk, salt))
       [] cs.fam = "grid" /\ kk <= 2 * GridN + PairN ->
-            (IF g = 1 THEN Bound(w, ((kk - 2 * GridN - 1) \div NBound) + 1)
-             ELSE IF g = 2 THEN Bound(w, ((kk - 2 * GridN - 1) % NBound) + 1) ELSE ValStd(w, kk, salt))
+            (IF g = 1 THEN Bound(w, ((kk - 2 * GridN - 1) \div NB) + 1)
+             ELSE IF g = 2 THEN Bound(w, ((kk - 2 * GridN - 1) % NB) + 1) ELSE ValStd(w, kk, salt))
       [] cs.fam = "grid" -> ValStd(w, kk - 2 * GridN - PairN, salt)
+      [] cs.fam = "grid1" /\ kk <= GridN ->
+            (IF g = 1 THEN WithLowByte(rnd, (kk - 1) % 256)
+             ELSE IF g = 2 THEN Bound(w, ((kk - 1) \div 256) + 1) ELSE ValStd(w, kk, salt))
+      [] cs.fam = "grid1" /\ kk <= GridN + PairN ->
+            (IF g = 1 THEN Bound(w, ((kk - GridN - 1) \div NB) + 1)
+             ELSE IF g = 2 THEN Bound(w, ((kk - GridN - 1) % NB) + 1) ELSE ValStd(w, kk, salt))
+      [] cs.fam = "grid1" -> ValStd(w, kk - GridN - PairN, salt)
       [] cs.fam = "full8" /\ kk <= 65536 ->
             (IF g = 1 THEN WithLowByte(rnd, (kk - 1) % 256)
              ELSE IF g = 2 THEN WithLowByte(rnd, (kk - 1) \div 256) ELSE ValStd(w, kk, salt))
       [] cs.fam = "full8" -> ValStd(w, kk - 65536, salt)
       [] cs.fam = "pairs" /\ kk <= PairN ->
-            (IF g = 1 THEN Bound(w, ((kk - 1) \div NBound) + 1)
-             ELSE IF g = 2 THEN Bound(w, ((kk - 1) % NBound) + 1) ELSE ValStd(w, kk, salt))
+            (IF g = 1 THEN Bound(w, ((kk - 1) \div NB) + 1)
+             ELSE IF g = 2 THEN Bound(w, ((kk - 1) % NB) + 1) ELSE ValStd(w, kk, salt))
       [] cs.fam = "pairs" -> ValStd(w, kk - PairN, salt)
       [] cs.fam = "low8" /\ kk <= 256 -> (IF g = 1 THEN WithLowByte(rnd, kk - 1) ELSE ValStd(w, kk, salt))
       [] cs.fam = "low8" -> ValStd(w, kk - 256, salt)
@@ -134,24 +142,26 @@ Diff(cs, cst, ist) ==
                      LET key == CHOOSE x \in badr : TRUE IN [n |-> key, c |-> cst.new[key], il |-> ist.new[key]]
                  ELSE [n |-> "-"] ]
 
-RunSrc(cs, kk, dev) ==
-    LET s0 == InputState(cs, kk, "exec", dev)
-        s1 == IF cs.src.kind = "sub"
-              THEN [s0 EXCEPT !.vars = [n \in {cs.src.params[i].n : i \in {j \in 1..Len(cs.src.params) : cs.src.params[j].kind = "val"}} |->
-                        LET i == CHOOSE j \in 1..Len(cs.src.params) : cs.src.params[j].n = n
-                        IN [t |-> cs.src.params[i].t, v |-> ValFor(cs.src.params[i].t.w, kk, 400 + i)]],
-                    !.rett = cs.src.ret]
-              ELSE s0
+SubParamNames(cs) == {cs.src.params[i].n : i \in {j \in 1..Len(cs.src.params) : cs.src.params[j].kind = "val"}}
+SubParamIdx(cs, n) == CHOOSE j \in 1..Len(cs.src.params) : cs.src.params[j].n = n
+SubArg(cs, kk, n) == LET i == SubParamIdx(cs, n) IN ValStd(cs.src.params[i].t.w, kk, 400 + i)
+
+\* the C source from input state s0 under deviation set dev
+RunSrc(cs, s0, kk, dev) ==
+    LET s1 == IF cs.src.kind = "sub"
+              THEN [s0 EXCEPT !.vars = [n \in SubParamNames(cs) |->
+                                          [t |-> cs.src.params[SubParamIdx(cs, n)].t, v |-> SubArg(cs, kk, n)]],
+                              !.rett = cs.src.ret, !.dev = dev]
+              ELSE [s0 EXCEPT !.dev = dev]
     IN  RunC(cs.src.body, s1)
 
-RunObs(cs, o, kk, model) ==
-    LET s0 == InputState(cs, kk, model, {})
-        body == IF cs.src.kind = "sub"
-                THEN Subst(o.term, [n \in {cs.src.params[i].n : i \in {j \in 1..Len(cs.src.params) : cs.src.params[j].kind = "val"}} |->
-                        LET i == CHOOSE j \in 1..Len(cs.src.params) : cs.src.params[j].n = n
-                        IN [op |-> "BV", w |-> cs.src.params[i].t.w, v |-> ValFor(cs.src.params[i].t.w, kk, 400 + i).l, args |-> <<>>]])
+\* the observed effect from input state s0 under plugin model `model'
+RunObs(cs, o, s0, kk, model) ==
+    LET body == IF cs.src.kind = "sub"
+                THEN Subst(o.term, [n \in SubParamNames(cs) |->
+                        [op |-> "BV", w |-> cs.src.params[SubParamIdx(cs, n)].t.w, v |-> SubArg(cs, kk, n).l, args |-> <<>>]])
                 ELSE o.term
-    IN  Run(body, s0, ILSubs)
+    IN  Run(body, [s0 EXCEPT !.model = model], ILSubs)
 
 \* return value of a sub-routine: C retv (converted to the declared type) vs IL ret_val
 RetAgree(cs, cst, ist) ==
@@ -159,36 +169,37 @@ RetAgree(cs, cst, ist) ==
         ("ret_val" \in DOMAIN ist.loc /\ IsBVv(ist.loc["ret_val"])
          /\ Cast(cs.src.ret.w, FALSE, ist.loc["ret_val"]) = cst.retv)
 
-Models(cs) == IF \E i \in 1..Len(cs.regs) : cs.regs[i].kind = "isa" /\ cs.regs[i].acc \in {"x", "y", "z"}
-              THEN <<"exec", "build">> ELSE <<"exec">>
+HasX(cs) == \E i \in 1..Len(cs.regs) : cs.regs[i].kind = "isa" /\ cs.regs[i].acc \in {"x", "y", "z"}
 
-\* verdict of one observed artefact o of case cs on input kk
-CheckOne(cs, o, kk) ==
-    LET ref == RunSrc(cs, kk, {})
-    IN  IF ref.unspec THEN [r |-> "unspec", why |-> ref.why]
-        ELSE IF ref.diverged THEN [r |-> "diverged"]
+\* verdict of one observed artefact o of case cs on input kk (s0: input state, ref: C result)
+CheckOne(cs, o, s0, ref, kk) ==
+    IF ref.unspec THEN [r |-> "unspec", why |-> ref.why]
+    ELSE IF ref.diverged THEN [r |-> "diverged"]
+    ELSE
+    LET ist == RunObs(cs, o, s0, kk, "exec")
+    IN  IF Agree(cs, ref, ist) /\ RetAgree(cs, ref, ist) THEN [r |-> "agree", model |-> "exec"]
         ELSE
-        LET okm == {m \in {Models(cs)[i] : i \in 1..Len(Models(cs))} :
-                       LET ist == RunObs(cs, o, kk, m) IN Agree(cs, ref, ist) /\ RetAgree(cs, ref, ist)}
-        IN  IF okm # {} THEN [r |-> "agree", models |-> okm]
+        LET istb == RunObs(cs, o, s0, kk, "build")
+        IN  IF HasX(cs) /\ Agree(cs, ref, istb) /\ RetAgree(cs, ref, istb) THEN [r |-> "agree", model |-> "build"]
             ELSE
-            LET ist == RunObs(cs, o, kk, "exec")
-                expl == {d \in 1..Len(DevSets) :
-                            LET dref == RunSrc(cs, kk, {DevSets[d][j] : j \in 1..Len(DevSets[d])})
+            LET expl == {d \in 1..Len(DevSets) :
+                            LET dref == RunSrc(cs, s0, kk, {DevSets[d][j] : j \in 1..Len(DevSets[d])})
                             IN  ~dref.unspec /\ ~dref.diverged /\ Agree(cs, dref, ist) /\ RetAgree(cs, dref, ist)}
             IN  IF expl # {} THEN [r |-> "deviation", dev |-> DevSets[CHOOSE d \in expl : \A d2 \in expl : d <= d2]]
                 ELSE [r |-> "mismatch", diff |-> Diff(cs, ref, ist), ret |-> RetAgree(cs, ref, ist)]
 
 Check(ci, kk) ==
     LET cs == Cases[ci]
-    IN  [i \in 1..Len(cs.obs) |-> CheckOne(cs, cs.obs[i], kk)]
+        s0 == InputState(cs, kk, "exec", {})
+        ref == RunSrc(cs, s0, kk, {})
+    IN  [i \in 1..Len(cs.obs) |-> CheckOne(cs, cs.obs[i], s0, ref, kk)]
 
 \* One line per (case, input) on which some artefact does not simply agree.  The harness classifies
 \* them (listed finding / violation); TLC's own INVARIANT is used only in replay mode, because
 \* reporting thousands of invariant violations serialises the workers on TLC's trace printer.
 Brief(v) == IF v.r \in {"unspec", "diverged"} THEN [r |-> v.r] ELSE v
 Report(ci, kk, v) ==
-    IF \A i \in 1..Len(v) : v[i].r = "agree" THEN TRUE
+    IF \A i \in 1..Len(v) : v[i].r = "agree" /\ v[i].model = "exec" THEN TRUE
     ELSE PrintT("TVREPORT " \o ToJson([id |-> Cases[ci].id, k |-> kk, v |-> [i \in 1..Len(v) |-> Brief(v[i])]]))
 
 Init == c \in 1..Len(Cases) /\ k \in 1..Cases[c].nin /\ verdict = <<>>
